@@ -23,6 +23,7 @@ Definition bstep (vs : bvars) (o : bop) : bvars * out * list ev :=
   | BInit i v | BConstructWith i v =>
     match live_at vs i with
     | Some d => if init d then (vs, RAssert, [])
+                else if throws v then (vs, RThrow, [])    (* the constructor throws: _initialized stays false *)
                 else (wr vs i (Live (mk_box true (fresh v))), RUnit, [EConstruct (sv i)])
     | None => bskip vs end
   | BDestruct i =>
@@ -62,7 +63,7 @@ Definition rbstep (vs : rbvars) (o : bop) : rbvars * out :=
   | BNew i => if dead_at vs i then (wr vs i (Live None), RUnit) else (vs, RSkip)
   | BInit i v | BConstructWith i v =>
     match live_at vs i with
-    | Some None => (wr vs i (Live (Some v)), RUnit)
+    | Some None => if throws v then (vs, RThrow) else (wr vs i (Live (Some v)), RUnit)
     | Some (Some _) => (vs, RAssert)
     | None => (vs, RSkip) end
   | BDestruct i =>
